@@ -16,7 +16,7 @@ CUSTOM_SPECS = [
     },
     {
         'top_role': ':ROOT',
-        'roles': {':R[a-c]': {}, ':x-of': {}, ':rel': {}, ':val': {}},
+        'roles': {':R[a-c]': {}, ':x-of': {}, ':rel': {}, ':val': {}, ':r\u00f4le': {}},      # a role that is not ASCII
         'normalizations': {':relation': ':rel'},
         'reifications': [[':rel', 'relate-01', ':ARG0', ':ARG1'],
                          [':val', 'value-01', ':ARG1', ':ARG2']],
@@ -104,7 +104,7 @@ def inventory(spec):
         edge = [':ARG0', ':ARG1', ':ARG2', ':mod', ':domain', ':op1', ':op2', ':part-of', ':loc']
         attr = [':name', ':quant', ':polarity', ':op1', ':mod']
     else:
-        edge = [':Ra', ':Rb', ':Rc', ':x-of', ':rel']
+        edge = [':Ra', ':Rb', ':Rc', ':x-of', ':rel', ':r\u00f4le']
         attr = [':val', ':Ra', ':Rc']
     return edge, attr
 
